@@ -1,3 +1,4 @@
-import NxModel.Nex.SchemaDriver
-/-! driver for C14: same line protocol as C13 (schema interpreter + `rmccfg`) -/
-def main : IO Unit := Nx.runState Nx.Schema.Drv.initEnv Nx.Schema.Drv.step
+import NxModel.Nex.C14Mux
+/-! driver for C14: the schema interpreter line protocol of C13 (+ `rmccfg`) and, on lines starting with `mux `,
+    the RMC client call-matching machine (see NxModel/Nex/C14Mux.lean) -/
+def main : IO Unit := Nx.runState Nx.C14Mux.init Nx.C14Mux.step
